@@ -517,16 +517,22 @@ pub fn run_sweep(args: &Args) -> (u64, u64) {
                 let Some(es) = found else { eprintln!("harness: encrypter state ({}, {}) unreachable", i, p); std::process::exit(2) };
                 let st = es.state();
                 let (mut outs, mut ni, mut np) = (vec![0u8; 256], vec![0u64; 256], vec![0u64; 256]);
+                let mut shown = true;
                 for x in 0..256usize {
                     let mut t = es.clone();
                     let mut one = [x as u8];
                     t.encrypt(&mut one);
                     outs[x] = one[0];
                     let s2 = t.state();
-                    ni[x] = s2["i"].as_u64().unwrap();
-                    np[x] = s2["p"].as_u64().unwrap();
+                    match (s2["i"].as_u64(), s2["p"].as_u64()) {
+                        (Some(a), Some(b2)) => { ni[x] = a; np[x] = b2; }
+                        _ => shown = false,
+                    }
                 }
-                c.tr.ev(json!({"ev": "StateSweep", "exp": exp, "dir": "enc", "K": b(&key), "st": st, "out": b(&outs), "ni": ni, "np": np}));
+                // constructed state: `lead` bytes processed, carried byte = the last ciphertext byte (= p)
+                let mut ev = json!({"ev": "StateSweep", "exp": exp, "dir": "enc", "K": b(&key), "st": st, "cst": {"i": lead % klen, "p": p}, "out": b(&outs)});
+                if shown { ev["ni"] = json!(ni); ev["np"] = json!(np); }
+                c.tr.ev(ev);
                 // ---- decrypter in state (i, p): previous ciphertext byte is simply the last input
                 let mut d = d0.clone();
                 let mut pre = vec![0u8; lead];
@@ -534,16 +540,21 @@ pub fn run_sweep(args: &Args) -> (u64, u64) {
                 pre[lead - 1] = p as u8;
                 d.decrypt(&mut pre);
                 let st = d.state();
+                let mut shown = true;
                 for x in 0..256usize {
                     let mut t = d.clone();
                     let mut one = [x as u8];
                     t.decrypt(&mut one);
                     outs[x] = one[0];
                     let s2 = t.state();
-                    ni[x] = s2["i"].as_u64().unwrap();
-                    np[x] = s2["p"].as_u64().unwrap();
+                    match (s2["i"].as_u64(), s2["p"].as_u64()) {
+                        (Some(a), Some(b2)) => { ni[x] = a; np[x] = b2; }
+                        _ => shown = false,
+                    }
                 }
-                c.tr.ev(json!({"ev": "StateSweep", "exp": exp, "dir": "dec", "K": b(&key), "st": st, "out": b(&outs), "ni": ni, "np": np}));
+                let mut ev = json!({"ev": "StateSweep", "exp": exp, "dir": "dec", "K": b(&key), "st": st, "cst": {"i": lead % klen, "p": p}, "out": b(&outs)});
+                if shown { ev["ni"] = json!(ni); ev["np"] = json!(np); }
+                c.tr.ev(ev);
             }
         }
         let _: Option<(van::HeaderCrypto, tbc::HeaderCrypto)> = None;
